@@ -41,21 +41,60 @@ func zzDecimal(v int64) string {
 	return string(buf[i:])
 }
 
-func zzXuid() int64 {
+// zzXuidBase picks the neighbourhood the XUID lies in: around zero and around 10^18 (19 characters,
+// where a fixed-size buffer would first truncate). In the thorough tier also the real 16-digit range
+// and both ends of the int64 range, there with concrete offsets only (the 64-bit decimal conversion
+// of a symbolic 16-19 digit value is not decided by any solver here within the time limit).
+func zzXuidBase() (base int64, symbolicOffset bool) {
+	n := 2
+	if zz.Thorough() {
+		n = 5
+	}
+	switch zz.Choose(n) {
+	case 1:
+		return 1000000000000000000, true
+	case 2:
+		return 2535400000000000, false // real XUIDs are 16 digits starting 2535...
+	case 3:
+		return 9223372036854775807 - 8, false
+	case 4:
+		return -9223372036854775808 + 8, false
+	}
+	return 0, true
+}
+
+func zzXuidNear(base int64, symbolicOffset bool) int64 {
+	if !symbolicOffset {
+		return base + int64(zz.Choose(17)) - 8
+	}
 	x := zz.Int64()
 	lim := int64(999)
 	if zz.Thorough() {
 		lim = 99999
 	}
 	zz.Assume(x >= -lim && x <= lim)
-	return x
+	return base + x
+}
+
+func zzXuid() int64 { return zzXuidNear(zzXuidBase()) }
+
+// zzStubSHA1 routes both entry points of crypto/sha1 (New and the one-shot Sum) to recorder h.
+func zzStubSHA1(next func() *zzSHA) {
+	zz.Replace("crypto/sha1.New", func() hash.Hash { return next() })
+	zz.Replace("crypto/sha1.Sum", func(data []byte) [20]byte {
+		h := next()
+		h.in = append(h.in, data...)
+		var out [20]byte
+		copy(out[:], h.out)
+		return out
+	})
 }
 
 // The UUID is the (stubbed) SHA-1 of "FloodgateXUID:"+decimal(xuid) with RFC 4122 version 5 / variant bits.
 func VerifHarness_JavaUuid() {
 	zz.MaxLen(20)
 	h := &zzSHA{out: zz.Bytes(20)}
-	zz.Replace("crypto/sha1.New", func() hash.Hash { return h })
+	zzStubSHA1(func() *zzSHA { return h })
 	x := zzXuid()
 	d := &BedrockData{Xuid: x}
 	id, err := d.JavaUuid()
@@ -83,14 +122,15 @@ func VerifHarness_JavaUuidDistinct() {
 	h1 := &zzSHA{out: make([]byte, 20)}
 	h2 := &zzSHA{out: make([]byte, 20)}
 	n := 0
-	zz.Replace("crypto/sha1.New", func() hash.Hash {
+	zzStubSHA1(func() *zzSHA {
 		n++
 		if n == 1 {
 			return h1
 		}
 		return h2
 	})
-	x, y := zzXuid(), zzXuid()
+	base, sym := zzXuidBase()
+	x, y := zzXuidNear(base, sym), zzXuidNear(base, sym)
 	_, _ = (&BedrockData{Xuid: x}).JavaUuid()
 	_, _ = (&BedrockData{Xuid: y}).JavaUuid()
 	if x != y {
@@ -105,7 +145,7 @@ func VerifHarness_JavaUuidDistinct() {
 func VerifMutant_JavaUuid() {
 	h := &zzSHA{out: zz.Bytes(20)}
 	zz.MaxLen(20)
-	zz.Replace("crypto/sha1.New", func() hash.Hash { return h })
+	zzStubSHA1(func() *zzSHA { return h })
 	id, _ := (&BedrockData{Xuid: 7}).JavaUuid()
 	zz.Assert(id[6] == h.out[6], "control: version bits overwrite digest bits")
 }
